@@ -491,6 +491,7 @@ class Index:
                 if os.environ.get("VT_NO_TRAILING_IF_NORM") != "1":
                     _normalise_trailing_ifs(tree)
                     _split_disjunctive_guards(tree)
+                _normalise_negated_compares(tree)  # the canonicalisations above negate tests
                 mi = ModuleInfo(modname, path, os.path.relpath(path, self.root), tree, src)
                 self.modules[modname] = mi
                 self._index_module(mi, is_pkg=fn == "__init__.py")
